@@ -1,7 +1,15 @@
-(** C23 -- implicit constructor tags follow the canonical-form CRC32 rule. *)
+(** C23 -- implicit constructor tags follow the canonical-form CRC32 rule.
+    Property theorems only; each is closed by [exact] of a lemma of Canon/CanonProofs.v.
+
+    Layout independence.  [tag], [canon] are functions of the parsed AST ([comb]) alone: whitespace, comments,
+    line breaks and the bracket style of type applications ([vector<int>] / [(vector int)]) do not exist at that
+    level.  That the real lexer+parser map all layout/syntax variants of a combinator to the same AST is
+    established by the correspondence run of lib/checks/C23.py (same AST dump and same tag for 6 variants of
+    every generated combinator), not by a theorem: the lexer/parser model belongs to another family. *)
 From TLV Require Import Canon.CanonModel Canon.CanonProofs.
 Open Scope N_scope.
 
+(** explicit tags are used verbatim; implicit tags are the CRC32 of the canonical form *)
 Theorem C23_tag_explicit_verbatim : forall c, c_explicit c = true -> tag c = c_id c.
 Proof. exact tag_explicit_verbatim. Qed.
 Print Assumptions C23_tag_explicit_verbatim.
@@ -9,3 +17,104 @@ Print Assumptions C23_tag_explicit_verbatim.
 Theorem C23_tag_implicit : forall c, c_explicit c = false -> tag c = crc32 (canon c).
 Proof. exact tag_implicit. Qed.
 Print Assumptions C23_tag_implicit.
+
+(** Combinator.Crc32() returns the stored ID; for what the parser stores ([parsed_id]) that is [tag] *)
+Theorem C23_stored_id_is_tag : forall c, parsed_id c = true -> c_id c = tag c.
+Proof. exact parsed_id_tag. Qed.
+Print Assumptions C23_stored_id_is_tag.
+
+Theorem C23_tag_fits_uint32 : forall s, Forall (fun b => b < 256) s -> crc32 s < 4294967296.
+Proof. exact crc32_range. Qed.
+Print Assumptions C23_tag_fits_uint32.
+
+(** shape of the canonical form of every well-formed (= parser-produced) combinator *)
+Theorem C23_canon_charset : forall c, wf_comb c = true -> forallb is_canon_char (canon c) = true.
+Proof. exact canon_chars. Qed.
+Print Assumptions C23_canon_charset.
+
+Theorem C23_canon_no_braces : forall c, wf_comb c = true -> ~ In ch_lcur (canon c) /\ ~ In ch_rcur (canon c).
+Proof. exact canon_no_braces. Qed.
+Print Assumptions C23_canon_no_braces.
+
+Theorem C23_canon_one_line : forall c, wf_comb c = true ->
+  ~ In 10 (canon c) /\ ~ In 13 (canon c) /\ ~ In 9 (canon c).
+Proof. exact canon_one_line. Qed.
+Print Assumptions C23_canon_one_line.
+
+(** not empty, no leading or trailing space, never two spaces in a row *)
+Theorem C23_canon_single_spaces : forall c, wf_comb c = true ->
+  canon c <> [] /\ hd 0 (canon c) <> ch_space /\ last (canon c) 0 <> ch_space /\
+  (forall a b, canon c <> a ++ ch_space :: ch_space :: b).
+Proof. exact canon_single_spaces. Qed.
+Print Assumptions C23_canon_single_spaces.
+
+(** repetitions are printed as "[ " ... " ]" *)
+Theorem C23_canon_brackets : forall f, exists pre mid,
+  crc_rws f = pre ++ [ch_lsq] ++ mid ++ [ch_space; ch_rsq] /\ (mid = [] \/ exists m, mid = ch_space :: m).
+Proof. exact crc_rws_brackets. Qed.
+Print Assumptions C23_canon_brackets.
+
+(** arithmetic is replaced by its value: outside repetition brackets only the value of an expression matters *)
+Theorem C23_canon_arith_value : forall c, canon (comb_map_arith arith_value c) = canon c.
+Proof. exact canon_arith_value. Qed.
+Print Assumptions C23_canon_arith_value.
+
+Theorem C23_tag_arith_by_value : forall f, (forall a, a_res (f a) = a_res a) ->
+  forall c, tag (comb_map_arith f c) = tag c.
+Proof. exact tag_arith_by_value. Qed.
+Print Assumptions C23_tag_arith_by_value.
+
+(** ... refuted inside repetition brackets, where the template prints plain fields with Field.String():
+    [foo n:# a:n*[(tuple int 2+3)] = Foo] and [... (tuple int 5) ...] get different tags (finding) *)
+Theorem C23_canon_arith_in_repeat_refuted :
+  exists c c', wf_comb c = true /\ wf_comb c' = true /\
+    c' = w_rep_comb [5] (c_id c') /\ c = w_rep_comb [2; 3] (c_id c) /\
+    canon c <> canon c' /\ tag c <> tag c'.
+Proof. exact canon_arith_in_repeat_refuted. Qed.
+Print Assumptions C23_canon_arith_in_repeat_refuted.
+
+(** bare-marker rule: '%' only in front of names that do not start with a lower-case letter *)
+Theorem C23_bare_marker_rule : forall ty args bare,
+  crc_tr (TypeRef ty args bare) = (if bare_marker ty bare then [ch_pct] else []) ++ crc_tr (TypeRef ty args false).
+Proof. exact bare_marker_rule. Qed.
+Print Assumptions C23_bare_marker_rule.
+
+Theorem C23_bare_marker_spec : forall ty bare,
+  bare_marker ty bare = true <->
+  bare = true /\ (n_name ty = [] \/ exists b r, n_name ty = b :: r /\ is_lower b = false).
+Proof. exact bare_marker_spec. Qed.
+Print Assumptions C23_bare_marker_spec.
+
+Theorem C23_excl_not_in_canon : forall e f, canon_field (set_excl e f) = canon_field f.
+Proof. exact canon_field_ignores_excl. Qed.
+Print Assumptions C23_excl_not_in_canon.
+
+(** CRC-32/IEEE: the tags asserted in internal/tlast/tlcrc32_test.go and the builtin tags *)
+Definition ex_builtin (nm ty : str) : comb :=
+  Comb true false [] (Name [] nm) 0 false [] [] (TypeDecl (Name [] ty) []) w_empty_tr.
+Example crc_int : tag (ex_builtin s_int [73; 110; 116]) = 2823855066.            (* a8509bda *)
+Proof. vm_compute. reflexivity. Qed.
+Example crc_long : tag (ex_builtin s_long [76; 111; 110; 103]) = 570911930.      (* 22076cba *)
+Proof. vm_compute. reflexivity. Qed.
+Example crc_float : tag (ex_builtin s_float [70; 108; 111; 97; 116]) = 2186128162.  (* 824dab22 *)
+Proof. vm_compute. reflexivity. Qed.
+Example crc_double : tag (ex_builtin s_double [68; 111; 117; 98; 108; 101]) = 571523412.  (* 2210c154 *)
+Proof. vm_compute. reflexivity. Qed.
+Example crc_string : tag (ex_builtin s_string [83; 116; 114; 105; 110; 103]) = 3039325732.  (* b5286e24 *)
+Proof. vm_compute. reflexivity. Qed.
+
+(* @any get_arrays n:# a:n*[int] b:5*[int] = Tuple int 5;   ->  90658cdb *)
+Definition ex_int_field : field := Field [] None false false false w_nofield_rep [] w_int.
+Definition ex_get_arrays (id : N) (explicit : bool) : comb :=
+  Comb false true [s_any] (Name [] [103; 101; 116; 95; 97; 114; 114; 97; 121; 115]) id explicit []
+    [Field [110] None false false false w_nofield_rep [] w_nat;
+     Field [97] None false true true (ScaleFactor false (Arith [] 0) [110]) [ex_int_field] w_empty_tr;
+     Field [98] None false true true (ScaleFactor true (Arith [5] 5) []) [ex_int_field] w_empty_tr]
+    (TypeDecl (Name [] []) [])
+    (TypeRef (Name [] [84; 117; 112; 108; 101]) [Aot false (Arith [] 0) w_int; Aot true (Arith [5] 5) w_empty_tr] false).
+Example crc_get_arrays : tag (ex_get_arrays 0 false) = 2422574299.               (* 90658cdb *)
+Proof. vm_compute. reflexivity. Qed.
+Example crc_get_arrays_explicit : tag (ex_get_arrays 305419896 true) = 305419896.  (* 12345678 *)
+Proof. vm_compute. reflexivity. Qed.
+Example canon_get_arrays_wf : wf_comb (ex_get_arrays 2422574299 false) = true.
+Proof. vm_compute. reflexivity. Qed.
